@@ -6,3 +6,10 @@ Import ListNotations.
 Definition sh_check (c : list op * list out) : bool :=
   list_eqb out_eqb (snd (run [] (fst c))) (snd c).
 Definition sh_mismatches (cs : list (list op * list out)) : list N := failing sh_check cs.
+
+(* Array / Hash half: the pure model of the List / OrderedMap operations (Model/Coll.v) against the
+   projected results the implementation returned on the same history. *)
+From PcoreV Require Model.Coll.
+Definition coll_check (c : list Coll.op * list Coll.out) : bool :=
+  list_eqb Coll.out_eqb (Coll.run (fst c)) (snd c).
+Definition coll_mismatches (cs : list (list Coll.op * list Coll.out)) : list N := failing coll_check cs.
